@@ -71,6 +71,7 @@ func main() {
 	if *tier == "thorough" {
 		vs := core.RunSelftests(*prop, *repo, *verif)
 		run, det, brun, bquiet := 0, 0, 0, 0
+		frun, fquiet, fcd := 0, 0, 0
 		var misses, falseAlarms, checkerErrors []string
 		for _, v := range vs {
 			status := "DETECTED"
@@ -83,8 +84,23 @@ func main() {
 				checkerErrors = append(checkerErrors, v.Name)
 				if v.Kind == "benign" {
 					brun++
+				} else if v.Kind == "feature" {
+					frun++
 				} else {
 					run++
+				}
+			case v.Kind == "feature":
+				frun++
+				switch {
+				case !v.Detected:
+					status = "SILENT"
+					fquiet++
+				case v.Semantic == 0:
+					status = "CHANGE DETECTION ONLY (edited functions reported as undecided; no semantic rule fires)"
+					fcd++
+				default:
+					status = "FALSE ALARM"
+					falseAlarms = append(falseAlarms, v.Name)
 				}
 			case v.Kind == "benign":
 				brun++
@@ -114,6 +130,7 @@ func main() {
 			"what":     "the checker run on seeded variants of the repository (scratch copies under /var/tmp, removed afterwards): hand-made single-instance variants, variants written by independent sub-agents given only the property text, and reversals of the fix: commits; every variant compiles and passes the 51 existing tests",
 			"variants": vs, "variants_run": run, "variants_detected": det, "missed": misses,
 			"benign_variants_run": brun, "benign_variants_silent": bquiet, "false_alarms": falseAlarms, "checker_errors": checkerErrors,
+			"feature_variants_run": frun, "feature_variants_silent": fquiet, "feature_variants_change_detection_only": fcd,
 		}
 		if len(checkerErrors) > 0 {
 			rep.Note("selftest: the checker itself failed (exit status other than 0/1) on %d variant(s): %v", len(checkerErrors), checkerErrors)
